@@ -1,6 +1,9 @@
 import AlgopyVerif.Proofs.Interp
 import AlgopyVerif.Proofs.GammaUnivariate
 import AlgopyVerif.Proofs.GammaGeneral
+import Mathlib.Algebra.BigOperators.Ring.Finset
+import Mathlib.Data.Rat.Cast.CharZero
+import Mathlib.Algebra.BigOperators.Group.List.Basic
 /-!
 # C15 — exact-interpolation coefficients reconstruct mixed partial derivatives
 
@@ -16,6 +19,8 @@ import AlgopyVerif.Proofs.GammaGeneral
   table entries stay as independent checks of the same statement).
   The property's own quantifier asks for exhaustive exploration up to a bound in exact rational arithmetic; the table
   delivers that with the kernel as the checker, the general theorem removes the bound.
+* `tensor_reconstruction`: hence `Σ_j Γ[i,j]·c_d(ray_j) = a_i` for every form `c_d(v) = Σ_α a_α v^α` of degree `d` (every `N`, `d`,
+  every field of characteristic zero).
   Not proved (partial): that the float implementation stays close to the exact `Γ` for large `d` (cancellation; the
   correspondence run compares it with the exact model for the table).
 -/
@@ -52,6 +57,35 @@ theorem Gamma_identity_one_variable (d : Nat) (hd : 0 < d) : checkIdentity 1 d =
 /-- the value of the single entry of Γ for one variable -/
 theorem Gamma_one_variable_value (d : Nat) (hd : 0 < d) : gamma [d] [d] = 1 / (d : ℚ) ^ d := gamma_single d hd
 
+/-- **the "hence" of the property**: whenever the `d`-th Taylor coefficient of a program along a direction `v` is a form of degree
+`d` in `v`, `c_d(v) = Σ_{|α| = d} a_α v^α` (for a `C^d` function this is the multivariate Taylor formula with `a_α = ∂^α F(x)/α!`;
+that formula itself is not restated here), the product of `Γ` with the coefficients along the rays returns every `a_i` — for every
+`N ≥ 1`, every `d ≥ 1`, every coefficient family `a` in every field of characteristic zero.  This is what
+`UTPM.extract_tensor ∘ program ∘ UTPM.init_tensor` computes. -/
+theorem tensor_reconstruction (N d : Nat) (hd : 0 < d) {K : Type*} [Field K] [CharZero K] (a : List Nat → K) (i : List Nat)
+    (hi : i ∈ multiIndices (N + 1) d) :
+    ((multiIndices (N + 1) d).map fun j =>
+        ((gamma i j : ℚ) : K) * ((multiIndices (N + 1) d).map fun α => a α * ((miPow j α : ℚ) : K)).sum).sum = a i := by
+  have hnd := nodup_multiIndices (N + 1) d
+  set J := multiIndices (N + 1) d with hJ
+  have key : ∀ α ∈ J, (J.map fun j => ((gamma i j : ℚ) : K) * ((miPow j α : ℚ) : K)).sum = if i = α then 1 else 0 := by
+    intro α hα
+    have h := Gamma_identity_entry N d hd i α hi hα
+    have h2 : (((J.map fun j => gamma i j * miPow j α).sum : ℚ) : K) = ((if i = α then (1:ℚ) else 0 : ℚ) : K) := by
+      rw [hJ, h]
+    rw [Rat.cast_list_sum, List.map_map] at h2
+    simp only [Function.comp_def, Rat.cast_mul] at h2
+    rw [h2]; split <;> simp
+  rw [← List.sum_toFinset _ hnd]
+  simp_rw [← List.sum_toFinset _ hnd, Finset.mul_sum]
+  rw [Finset.sum_comm]
+  have : ∀ α ∈ J.toFinset, (∑ j ∈ J.toFinset, ((gamma i j : ℚ) : K) * (a α * ((miPow j α : ℚ) : K))) = a α * (if i = α then 1 else 0) := by
+    intro α hα
+    rw [← key α (List.mem_toFinset.mp hα), ← List.sum_toFinset _ hnd, Finset.mul_sum]
+    exact Finset.sum_congr rfl fun j _ => by ring
+  rw [Finset.sum_congr rfl this]
+  simp [Finset.sum_ite_eq, hi]
+
 theorem Gamma_identity_1_1 : checkIdentity 1 1 = true := by decide +kernel
 theorem Gamma_identity_1_2 : checkIdentity 1 2 = true := by decide +kernel
 theorem Gamma_identity_1_3 : checkIdentity 1 3 = true := by decide +kernel
@@ -76,5 +110,7 @@ theorem Gamma_identity_4_3 : checkIdentity 4 3 = true := by decide +kernel
 /-- non-vacuity: the table entries are non-trivial (6 multi-indices for N=3, d=2) -/
 example : (multiIndices 3 2).length = 6 := by decide
 example : gamma [2, 0] [2, 0] ≠ 0 := by decide +kernel
+/-- non-vacuity of `tensor_reconstruction`: `[1, 1]` is a multi-index of (2, 2) (the mixed partial) -/
+example : [1, 1] ∈ multiIndices (1 + 1) 2 := by decide
 
 end AV.C15
